@@ -42,3 +42,34 @@ Theorem C16_opcode_lowered : forall w gen s mode o1 o2 size operand index fi,
   lower_ascii o1 = lower_ascii o2 ->
   gen_one w gen s (AOpcode mode o1 size operand index fi) = gen_one w gen s (AOpcode mode o2 size operand index fi).
 Proof. exact opcode_case_folded. Qed.
+
+(** Scanner level.  Scanning is compositional at line ends: if [s1] ends with a newline and scans
+    by itself, then scanning [s1 ++ s2] is scanning [s2] with the tokens of [s1] in front and every
+    later line number shifted by the newlines of [s1] — for success and for a reported error alike. *)
+From A816 Require Import Model.Scanner Proofs.ScannerSpec Proofs.ScannerPos Proofs.ScannerShift Proofs.ScannerLayout.
+Theorem C16_scan_compositional : forall lx file s1 s2 toks1 eof1 lines1,
+  lexicon_ok lx = true -> (exists a, s1 = a ++ [10%Z]) ->
+  scan lx file s1 = ScanOk (toks1 ++ [eof1]) lines1 ->
+  scan lx file (s1 ++ s2) = shift_result (count_nl s1) toks1 (removelast lines1) (scan lx file s2).
+Proof. exact scan_line_compositional. Qed.
+
+(** Hence any block of whole lines that scans to nothing significant (blank lines, lines of spaces
+    and tabs, full-line [;] comments, one- or multi-line [/* */] comments) can be inserted between two
+    lines — or removed — without changing the significant token stream (types and values of the
+    non-comment tokens; for a failing scan: the message, column and tokens before it). *)
+Theorem C16_invisible_block : forall lx file a blk b ta ea la tb eb lb,
+  lexicon_ok lx = true ->
+  ends_nl a -> scan lx file a = ScanOk (ta ++ [ea]) la ->
+  ends_nl blk -> scan lx file blk = ScanOk (tb ++ [eb]) lb -> sig tb = [] ->
+  view_of (scan lx file (a ++ blk ++ b)) = view_of (scan lx file (a ++ b)) /\
+  scan lx file (a ++ blk ++ b) =
+    shift_result (count_nl a) ta (removelast la) (shift_result (count_nl blk) tb (removelast lb) (scan lx file b)) /\
+  scan lx file (a ++ b) = shift_result (count_nl a) ta (removelast la) (scan lx file b).
+Proof. exact invisible_block_between. Qed.
+Theorem C16_blank_lines : forall lx file a w b ta ea la, lexicon_ok lx = true ->
+  ends_nl a -> scan lx file a = ScanOk (ta ++ [ea]) la -> all_blank w -> ends_nl w ->
+  view_of (scan lx file (a ++ w ++ b)) = view_of (scan lx file (a ++ b)).
+Proof. exact blank_lines_insertion. Qed.
+Theorem C16_blank_lines_at_top : forall lx file w b, lexicon_ok lx = true -> all_blank w -> ends_nl w ->
+  view_of (scan lx file (w ++ b)) = view_of (scan lx file b).
+Proof. exact blank_lines_at_top. Qed.
